@@ -682,6 +682,21 @@ fn case_codec(ctx: &mut Ctx, sch: &Sch, sub: u64) {
             ctx.report.count("checked:compact-doc-node-data");
         }
     }
+    // a top-level pre-tokenized text: what `add_pre_tokenized_text` puts into node_data (its JSON)
+    for (f, v) in gd.added.iter() {
+        if let OwnedValue::PreTokStr(p) = v {
+            let mut d1 = TantivyDocument::default();
+            d1.add_pre_tokenized_text(*f, p.clone());
+            let mut cv = String::new();
+            canon_value(v, &mut cv);
+            let m = ctx.model.ask(&format!("C09 cdoc {cv}"));
+            if m.split('|').next() != Some(hex(&d1.node_data).as_str()) {
+                ctx.report.violation("model", "C09:compact-doc-bytes", format!("node_data of a document holding the pre-tokenized text {} differs from the model's", clip(&cv)), case.clone());
+            }
+            ctx.report.count("checked:compact-doc-pretok");
+            break;
+        }
+    }
     if ctx.report.samples.len() < 2 && nested {
         ctx.report.sample(json!({"kind":"codec","stored_view": clip(&expected), "bytes": bytes.len()}));
     }
@@ -1056,6 +1071,18 @@ fn case_store(ctx: &mut Ctx, k: Consts, sub: u64) {
             }
         }
         ctx.report.count("store-block-frame-compared");
+    }
+    // whole-file correspondence for lz4: the model reader (skip index, frame, LZ4 block decoder with
+    // literals and overlapping matches, block offsets) on the file the real writer produced
+    if matches!(comp, Compressor::Lz4) && file.len() <= 60_000 {
+        let mut probe: Vec<u32> = order.iter().take(120).cloned().collect();
+        probe.push(n as u32);
+        let mg = ctx.model.ask(&format!("C09 getlz4 {} {}", hex(&file), nat_list(&probe)));
+        let expect: Vec<String> = probe.iter().map(|&d| if (d as usize) < n { hex(&docs[d as usize]) } else { "err".into() }).collect();
+        if mg != expect.join(",") {
+            ctx.report.violation("model", "C09:model-get-real-lz4-file", format!("model reader with the LZ4 block decoder on the real lz4 store file disagrees ({} docs, {} blocks)", n, cps.len()), case.clone());
+        }
+        ctx.report.count("store-model-whole-file-lz4");
     }
     // model correspondence on whole files (compressor none)
     let total: usize = file.len();
@@ -1643,6 +1670,22 @@ fn case_index(ctx: &mut Ctx, sch: &Sch, k: Consts, sub: u64) {
         _ => index.searchable_segment_ids().unwrap_or_default(),
     };
     let multi = ids.len() > 1;
+    // for the mapped merge of a sorted index: which document ids each source segment holds
+    let mut id_owner: std::collections::HashMap<u64, usize> = Default::default();
+    if sorted.is_some() && matches!(st.comp, Compressor::None) {
+        if let Ok(reader) = index.reader() {
+            let searcher = reader.searcher();
+            for sr in searcher.segment_readers() {
+                if let (Some(ord), Ok(col)) = (ids.iter().position(|i| *i == sr.segment_id()), sr.fast_fields().u64("id")) {
+                    for d in 0..sr.max_doc() {
+                        if let Some(id) = col.first(d) {
+                            id_owner.insert(id, ord);
+                        }
+                    }
+                }
+            }
+        }
+    }
     let merged = catch_unwind(AssertUnwindSafe(|| w.merge(&ids).wait()));
     match merged {
         Ok(Ok(_)) => {}
@@ -1693,6 +1736,34 @@ fn case_index(ctx: &mut Ctx, sch: &Sch, k: Consts, sub: u64) {
                     }
                 }
                 ctx.report.count("merge:model-compared");
+            }
+        }
+    }
+    // sorted index: the mapped merge against the model's `mergeMapped` (same sources, the mapping
+    // read off the merged segment)
+    if matches!(st.comp, Compressor::None) && sorted.is_some() {
+        if let (Some(b), Some(after)) = (&before, segment_stores(&index)) {
+            let size: usize = b.iter().map(|x| x.1.len()).sum();
+            let mapping: Option<Vec<usize>> = (|| {
+                let reader = index.reader().ok()?;
+                let searcher = reader.searcher();
+                let seg = searcher.segment_readers().first()?.clone();
+                let col = seg.fast_fields().u64("id").ok()?;
+                (0..seg.max_doc()).map(|d| col.first(d).and_then(|id| id_owner.get(&id).cloned())).collect()
+            })();
+            if let (1, true, Some(mapping)) = (after.len(), size <= 250_000, mapping) {
+                let srcs: Vec<String> = ids.iter().filter_map(|id| b.iter().find(|x| x.0 == *id)).map(|x| format!("{}:{}", hex(&x.1), x.2)).collect();
+                let live_total = total - ndel;
+                let probe: Vec<u32> = (0..live_total as u32 + 1).collect();
+                let mm = ctx.model.ask(&format!("C09 mergemapped {} {} {}", st.bs, srcs.join(";"), nat_list(&mapping)));
+                let on_real = ctx.model.ask(&format!("C09 get {} {}", hex(&after[0].1), nat_list(&probe)));
+                let on_model = if mm == "err" { "err".to_string() } else { ctx.model.ask(&format!("C09 get {mm} {}", nat_list(&probe))) };
+                if on_real != on_model {
+                    ctx.report.violation("model", "C09:mapped-merge-content", format!("sorted index: the model's mapped merge of the {} source stores holds other documents than the real merged store (block size {}, deletes {ndel})", srcs.len(), st.bs), case.clone());
+                } else if mm != hex(&after[0].1) {
+                    layout_differs(ctx, "merged-store", "mapped merge".into());
+                }
+                ctx.report.count("merge:mapped-model-compared");
             }
         }
     }
@@ -2567,6 +2638,25 @@ fn case_utf8(ctx: &mut Ctx) {
     }
 }
 
+/// field ids of a `TantivyDocument` are u16: larger ids panic in `add_field_value`; the model states
+/// this as the precondition of its document round trip
+fn case_field_limit(ctx: &mut Ctx) {
+    for f in [0u32, 1, 65_534, 65_535, 65_536, 65_537, 1 << 20, u32::MAX] {
+        let case = json!({"kind": "fieldlimit", "sub": "0"});
+        ctx.report.case(&format!("fieldlimit|{f}"), true);
+        let real = catch_unwind(AssertUnwindSafe(|| {
+            let mut d = TantivyDocument::default();
+            d.add_field_value(Field::from_field_id(f), &OwnedValue::Null);
+            d.field_values().count()
+        }));
+        let real = match real { Ok(1) => "ok", Ok(_) => "lost", Err(_) => "panic" };
+        let model = ctx.model.ask(&format!("C09 cdfield {f}"));
+        if model != real {
+            ctx.report.violation("model", "C09:field-id-limit", format!("field id {f}: add_field_value {real}, model {model}"), case);
+        }
+    }
+}
+
 /// the number classification alone: `OwnedValue::from(serde_json::Value)` against the rule
 /// (oracle) and against the Lean `jsonNumber` (model)
 fn case_json_numbers(ctx: &mut Ctx) {
@@ -2791,7 +2881,7 @@ fn plan(seed: u64, thorough: bool) -> Vec<(&'static str, Vec<(&'static str, u64)
         let mut r = Rng::new(seed ^ crate::report::fnv(name.as_bytes()));
         (0..n).map(|_| r.next_u64()).collect()
     };
-    let mut fixed: Vec<(&'static str, u64)> = vec![("vint", 0), ("vint32", 0), ("empty", 0), ("jsonnum", 0), ("utf8", 0)];
+    let mut fixed: Vec<(&'static str, u64)> = vec![("vint", 0), ("vint32", 0), ("empty", 0), ("jsonnum", 0), ("utf8", 0), ("fieldlimit", 0)];
     for depth in [1u64, 2, 64, 127, 128, 300] {
         fixed.push(("deep", depth));
     }
@@ -2803,16 +2893,16 @@ fn plan(seed: u64, thorough: bool) -> Vec<(&'static str, Vec<(&'static str, u64)
         ("fixed", fixed),
         ("thresholds", thr),
         ("thridx", vec![("thridx", 0)]),
-        ("codec", subs("codec", b(700, 5000)).into_iter().map(|s| ("codec", s)).collect()),
-        ("store", subs("store", b(320, 2500)).into_iter().map(|s| ("store", s)).collect()),
-        ("stack", subs("stack", b(80, 600)).into_iter().map(|s| ("stack", s)).collect()),
-        ("index", subs("index", b(70, 520)).into_iter().map(|s| ("index", s)).collect()),
-        ("index2", subs("index2", b(12, 120)).into_iter().map(|s| ("index2", s)).collect()),
-        ("filtered", subs("filtered", b(45, 380)).into_iter().map(|s| ("filtered", s)).collect()),
+        ("codec", subs("codec", b(700, 4000)).into_iter().map(|s| ("codec", s)).collect()),
+        ("store", subs("store", b(320, 2000)).into_iter().map(|s| ("store", s)).collect()),
+        ("stack", subs("stack", b(80, 450)).into_iter().map(|s| ("stack", s)).collect()),
+        ("index", subs("index", b(70, 400)).into_iter().map(|s| ("index", s)).collect()),
+        ("index2", subs("index2", b(12, 90)).into_iter().map(|s| ("index2", s)).collect()),
+        ("filtered", subs("filtered", b(45, 300)).into_iter().map(|s| ("filtered", s)).collect()),
         ("v1", subs("v1", b(6, 40)).into_iter().map(|s| ("v1", s)).collect()),
-        ("jsondoc", subs("jsondoc", b(60, 600)).into_iter().map(|s| ("jsondoc", s)).collect()),
-        ("mixed", subs("mixed", b(40, 300)).into_iter().map(|s| ("mixed", s)).collect()),
-        ("codecswitch", subs("codecswitch", b(30, 200)).into_iter().map(|s| ("codecswitch", s)).collect()),
+        ("jsondoc", subs("jsondoc", b(60, 450)).into_iter().map(|s| ("jsondoc", s)).collect()),
+        ("mixed", subs("mixed", b(40, 220)).into_iter().map(|s| ("mixed", s)).collect()),
+        ("codecswitch", subs("codecswitch", b(30, 150)).into_iter().map(|s| ("codecswitch", s)).collect()),
     ]
 }
 
@@ -2834,6 +2924,7 @@ fn run_case(ctx: &mut Ctx, sch: &Sch, k: Consts, kind: &str, sub: u64) {
         "jsondoc" => case_json_docs(ctx, sch, k, sub),
         "jsonnum" => case_json_numbers(ctx),
         "utf8" => case_utf8(ctx),
+        "fieldlimit" => case_field_limit(ctx),
         "mixed" => case_mixed_codec_merge(ctx, sch, k, sub),
         "codecswitch" => case_codec_switch(ctx, sch, k, sub),
         other => ctx.report.notes.push(format!("unknown case kind {other}")),
@@ -2924,6 +3015,14 @@ fn merge_child_report(ctx: &mut Ctx, r: &J) {
     }
     for v in r["violations"].as_array().cloned().unwrap_or_default() {
         let key = v["key"].as_str().unwrap_or("").to_string();
+        // the operating system refusing a thread (overloaded machine) says nothing about the store
+        if v["what"].as_str().unwrap_or("").contains("Failed to spawn") {
+            let note = format!("environment: {} ({})", v["what"].as_str().unwrap_or(""), key);
+            if ctx.report.notes.len() < 20 {
+                ctx.report.notes.push(note);
+            }
+            continue;
+        }
         if ctx.report.violations.iter().filter(|x| x.key == key).count() < 3 {
             ctx.report.violations.push(crate::report::Violation {
                 kind: v["kind"].as_str().unwrap_or("oracle").to_string(),
@@ -2969,6 +3068,9 @@ pub fn run(ctx: &mut Ctx) {
         "TantivyDocument node_data (leaf encodings, address tables) = model cdAdd, byte for byte".into(),
         "lz4 / zstd blocks: 4-byte length frame = model framed codec header".into(),
         "UTF-8 check of stored strings: real deserializer accepts exactly what the model's utf8Valid accepts".into(),
+        "lz4 store files: model reader with the LZ4 block decoder on real files = documents".into(),
+        "sorted index: merged store = model mergeMapped of the source stores with the observed mapping".into(),
+        "field id limit of TantivyDocument: panic exactly where the model's precondition fails".into(),
         "iter_raw + get on one reader: CacheStats = model runOps (iteration through the cache)".into(),
     ];
     // ---- child: one phase, or one replayed case, in this process -------------------------------
